@@ -261,6 +261,11 @@ type Modem struct {
 	*End
 	buffered int64
 	Flushes  int32
+	// Quarters is the part (in quarters, 1..4) of the bytes written since the last Flush that the modem
+	// reports as still queued; 0 means 2 (half). 4 models a modem that transmits nothing until it is
+	// flushed: its queue (which also holds the frame header and block framing bytes) is then always
+	// larger than the number of message bytes handed over so far.
+	Quarters int
 }
 
 // NewModem wraps e.
@@ -277,8 +282,11 @@ func (m *Modem) Flush() error {
 }
 
 func (m *Modem) TxBufferLen() int {
-	// pretend half of what was written since the last flush is still queued
-	return int(atomic.LoadInt64(&m.buffered) / 2)
+	q := m.Quarters
+	if q <= 0 || q > 4 {
+		q = 2
+	}
+	return int(atomic.LoadInt64(&m.buffered) * int64(q) / 4)
 }
 
 // Scripted is a net.Conn whose read side is a fixed byte string delivered with a read schedule and
